@@ -16,6 +16,9 @@
 (*         q  qualified identifier: that constant lives in the included file *)
 (*         t  type written through a typedef (j = length of the chain)     *)
 (*         u  type written through a typedef of the included file          *)
+(*         v  element type of a container written through a typedef        *)
+(*         x  hand-written cases (Data.extra): struct-likes inside struct-  *)
+(*            likes, unions, exceptions, implicit enum numbers, ...         *)
 (*         p  probes: spellings the statement does not demand (typedef'd   *)
 (*            enum name, bare member name); accepted => value must be right *)
 (* Leaf kinds get their identifier / qualified identifier ways from the    *)
@@ -94,17 +97,21 @@ CaseKeys(si) ==
   \cup (IF ~IsLeaf(t) /\ QOK(t) THEN {[k |-> "case", si |-> si, form |-> "q", j |-> 1, q |-> 1]} ELSE {})
   \cup {[k |-> "case", si |-> si, form |-> "t", j |-> j, q |-> 1] : j \in 1..2}
   \cup (IF QOK(t) THEN {[k |-> "case", si |-> si, form |-> "u", j |-> 1, q |-> 1]} ELSE {})
+  \cup (IF Depth(t) = 1 THEN {[k |-> "case", si |-> si, form |-> "v", j |-> j, q |-> 1] : j \in 1..NW(Ways, t)} ELSE {})
   \cup (IF t = Ref1("E") THEN {[k |-> "case", si |-> si, form |-> "p", j |-> 1, q |-> q] : q \in 1..2} ELSE {})
 
 FieldD(id, req, name, t, def) == [name |-> name, id |-> id, req |-> req, type |-> t, def |-> def]
 NONE == [none |-> TRUE]
 
 \* the parts of a case: definitions, type as written, initializer, the initializer whose value a probe must have
+Extra == Data.extra     \* hand-written cases: <<[id, way, defs, ct, cv]>>
+ShapeOf(c) == IF c.form = "x" THEN Extra[c.j].ct ELSE ShapeL[c.si]
 Parts(c) ==
-  LET t  == ShapeL[c.si]
+  LET t  == ShapeOf(c)
       id == ToString(c.si) \o c.form \o ToString(c.j) \o "n" \o ToString(c.q)
       lit(j) == Wr(Ways, t, j, HIds(t, id)) IN
-  CASE c.form = "l" -> [id |-> id, defs |-> HDefs(t, id, c.j), ct |-> t, cv |-> lit(c.j)[c.q], way |-> WayName(Ways, t, c.j)]
+  CASE c.form = "x" -> [id |-> Extra[c.j].id, defs |-> Extra[c.j].defs, ct |-> t, cv |-> Extra[c.j].cv, way |-> Extra[c.j].way]
+    [] c.form = "l" -> [id |-> id, defs |-> HDefs(t, id, c.j), ct |-> t, cv |-> lit(c.j)[c.q], way |-> WayName(Ways, t, c.j)]
     [] c.form = "e" -> [id |-> id, defs |-> <<>>, ct |-> t, cv |-> Empty(t), way |-> "empty"]
     [] c.form = "i" -> [id |-> id, defs |-> <<ConstDef(1, "H" \o id \o "a", t, Wr(Ways, t, 1, <<>>)[1])>>, ct |-> t,
                         cv |-> [id |-> <<"H" \o id \o "a">>], way |-> "id"]
@@ -117,6 +124,8 @@ Parts(c) ==
                         ct |-> Ref1("TD" \o id), cv |-> lit(c.j)[1], way |-> WayName(Ways, t, c.j)]
     [] c.form = "u" -> [id |-> id, defs |-> HDefs(t, id, 1) \o <<TypeDef(2, "TD" \o id, InB(t))>>,
                         ct |-> Ref2("b", "TD" \o id), cv |-> lit(1)[1], way |-> WayName(Ways, t, 1)]
+    [] c.form = "v" -> [id |-> id, defs |-> <<TypeDef(1, "TD" \o id, t.v)>>, ct |-> [t EXCEPT !.v = Ref1("TD" \o id)],
+                        cv |-> lit(c.j)[1], way |-> WayName(Ways, t, c.j)]
     [] c.form = "p" -> [id |-> id, defs |-> <<>>, ct |-> t,
                         cv |-> IF c.q = 1 THEN [id |-> <<"TE", "A">>] ELSE [id |-> <<"A">>],
                         way |-> IF c.q = 1 THEN "typedef-name.member" ELSE "bare-member"]
@@ -134,7 +143,7 @@ SetStep(f, v) == [op |-> "set", f |-> f, v |-> v]
 
 CaseOf(c) ==
   LET pt   == Parts(c)
-      t    == ShapeL[c.si]
+      t    == ShapeOf(c)
       sd   == StructOf(c, pt)
       main == ConstDef(1, "C" \o pt.id, pt.ct, pt.cv)
       defs == pt.defs \o <<main, Def(1, "structs", sd)>>
@@ -178,6 +187,7 @@ CtxCase ==
 VARIABLE c
 Init == c = [k |-> "root"]
 Next == \/ c.k = "root" /\ c' \in {[k |-> "shape", si |-> si] : si \in 1..Len(ShapeL)} \cup {[k |-> "ctx"]}
+                                  \cup {[k |-> "case", si |-> 0, form |-> "x", j |-> i, q |-> 1] : i \in 1..Len(Extra)}
         \/ c.k = "shape" /\ c' \in CaseKeys(c.si)
 
 \* design-level invariants (the specification checked against itself on the whole universe)
